@@ -322,3 +322,33 @@ pub fn run_blocks(job: &Value, t: &mut Trace) -> usize {
     }
     n
 }
+
+/// growth: VorbisComment field algebra histories (CommentAlgebra.tla)
+pub fn run_comments(job: &Value, t: &mut Trace) -> usize {
+    use flac_codec::metadata::VorbisComment;
+    let keys: Vec<String> = job["keys"].as_array().unwrap().iter().map(|k| k.as_str().unwrap().to_string()).collect();
+    let mut n = 0;
+    for (hi, h) in job["histories"].as_array().unwrap().iter().enumerate() {
+        n += 1;
+        t.emit(json!({"ev": "reset", "id": hi as i64}));
+        let mut vc = VorbisComment { vendor_string: "v".into(), fields: vec![] };
+        for step in h.as_array().unwrap() {
+            let op = &step["op"];
+            let k = op["k"].as_str().unwrap_or("");
+            let r = catch(|| match op["op"].as_str().unwrap() {
+                "insert" => vc.insert(k, op["v"].as_str().unwrap()),
+                "set" => vc.set(k, op["v"].as_str().unwrap()),
+                "remove" => vc.remove(k),
+                "replace" => vc.replace(k, op["vs"].as_array().unwrap().iter().map(|v| v.as_str().unwrap().to_string())),
+                _ => vc.replace_with(k, |v| format!("{v}!")),
+            });
+            let fields: Vec<Value> = vc.fields.iter().map(|f| { let (a, b) = f.split_once('=').unwrap_or((f, "")); json!([a, b]) }).collect();
+            let mut q = serde_json::Map::new();
+            for key in &keys {
+                q.insert(key.clone(), Value::from(vc.all(key).map(|s| s.to_string()).collect::<Vec<_>>()));
+            }
+            t.emit(json!({"ev": "cstep", "id": hi as i64, "op": op, "ret": if r.is_ok() { "ok" } else { "panic" }, "fields": fields, "queries": Value::Object(q)}));
+        }
+    }
+    n
+}
